@@ -96,7 +96,12 @@ def execute(scn, devs, bindir, scratch, expect=None):
                     out[nm] = 0
             out["initial_tokens"] = js["n"] - 1
             jsres = out
+        post = []
+        for cmd in scn.get("post_cmds", []):
+            rc_, out_, err_ = proj.redo(list(cmd))
+            post.append({"argv": list(cmd), "rc": rc_, "out": out_, "err": err_})
         res = {
+            "post": post,
             "jobserver": jsres,
             "verdict": verdict, "error": err, "divergence": divergence,
             "steps": sch.steps, "events": sch.events, "flags": sch.flags,
